@@ -85,7 +85,7 @@ pub open spec fn mint_supported(m: Mint, badge: bool) -> bool {
     m.owner_program == token_program_id() || (!is_native_2022(m.k) && (m.freeze_authority is Some ==> badge)
         && forall|i: int| 0 <= i < m.extensions@.len() ==> ext_ok(#[trigger] m.extensions@[i], badge, m.default_state, m.freeze_authority is Some))
 }
-//@ fn util/v2/token.rs is_supported_token_mint -> r
+//@ fn util/v2/token.rs is_supported_token_mint -> r canary
     ensures
         r matches Ok(b) ==> b == mint_supported(token_mint.data, is_token_badge_initialized),
         // the only failure is a default-account-state extension that cannot be read
@@ -118,7 +118,7 @@ pub open spec fn badge_ok(a: BadgeAccount<'_>, config: Pubkey, mint: Pubkey) -> 
 //@ rewrite /TokenBadge::try_deserialize\(&mut token_badge\.data\.borrow\(\)\.as_ref\(\)\)\?/ => /try_deserialize_badge(token_badge)?/
 //@ end
 /// C19: a pool or reward can be created over a mint only if mint_supported holds with the badge issued for THIS config and THIS mint
-//@ fn util/v2/token.rs verify_supported_token_mint -> r
+//@ fn util/v2/token.rs verify_supported_token_mint -> r canary
     ensures r is Ok ==> mint_supported(token_mint.data, badge_ok(*token_badge, whirlpools_config_key, token_mint.data.k)),
 //@ end
 }
